@@ -11,6 +11,7 @@ CONSTANTS
   KillCarriesState = TRUE
   Once = FALSE
   Undecodable = {}
+  SweepKillsDraining = {TRUE, FALSE}
 CONSTRAINT Progress
 INVARIANTS
   OrderOk PostStopOnlyGraceful NoOverlap NoStartAfterKill NoHandlerAfterStop
